@@ -131,6 +131,33 @@ pub fn run_c16<C: NatCtx>(v: &mut Env<C>) {
             v.h.check(out == Out::Ok(n(&want)), || format!("Schnorr challenge for a {}-byte label is not the hash of its transcript on {}", len, tok));
         }
     }
+    // a label beyond 2^24 bytes (thorough: 2^26): the proof the library makes carries the hash of the documented
+    // transcript, and the label is not interchangeable with its own digest
+    if v.small && v.p == big(23) && C::kind() == 'B' {
+        for len in if quick { vec![(1usize << 24) + 1] } else { vec![(1 << 24) + 1, (1 << 26) + 1] } {
+            let label = vec![0x5au8; len];
+            let x = v.rnd_exp();
+            let (xe, ye) = (v.x(&x), v.e(&g.modpow(&x, &p)));
+            strand::verif_hooks::load_exp_tape(vec![]);
+            let zk = Zkp::new(&ctx);
+            let pf = zk.schnorr_prove(&xe, &ye, None, &label).unwrap();
+            let bytes = zv::schnorr_challenge_bytes::<C>(&v.e(&g), &ye, &pf.commitment, None, &label).unwrap();
+            v.h.check(C::x_val(&pf.challenge) == C::x_val(&ctx.hash_to_exp(&bytes)), || format!("the challenge of a Schnorr proof with a {}-byte label is not the hash of its documented transcript on {}", len, tok));
+            v.h.check(zk.schnorr_verify(&ye, None, &pf, &label), || format!("honest Schnorr proof with a {}-byte label rejected on {}", len, tok));
+            let digest = strand::util::hash(&label);
+            // (toy group: a chance collision of two challenges has probability 1/q; a digest-for-label substitution
+            // makes the challenges EQUAL as byte strings, which is what is compared)
+            let b2 = zv::schnorr_challenge_bytes::<C>(&v.e(&g), &ye, &pf.commitment, None, &digest).unwrap();
+            v.h.check(b2 != bytes, || "label and digest give the same transcript".to_string());
+            let gr = v.rnd_member();
+            let key = strand::elgamal::PrivateKey::from(&xe, &ctx);
+            let c = strand::elgamal::Ciphertext::<C> { mhr: v.e(&gr), gr: v.e(&gr) };
+            let (_, cpf) = key.decrypt_and_prove(&c, &label).unwrap();
+            let d = key.decryption_factor(&c);
+            let cb = zv::cp_challenge(&zk, &v.e(&g), &c.gr, &ye, &d, &cpf.commitment1, &cpf.commitment2, Some(&c.mhr), &label).unwrap();
+            v.h.check(C::x_val(&cpf.challenge) == C::x_val(&cb), || format!("the challenge of a decryption proof with a {}-byte label is not the documented one on {}", len, tok));
+        }
+    }
     // shuffle challenges
     let sizes: Vec<usize> = if v.small { if quick { vec![1, 3] } else { vec![1, 2, 5, 20] } } else if quick { vec![2] } else { vec![1, 4, 10] };
     let sk = v.rnd_exp();
